@@ -1,6 +1,7 @@
 (* C16 - schema-supplied strings are data, never code. *)
 From Coq Require Import List String Ascii NArith Bool.
-From Verif Require Import PyStrLit PyStrLitProofs Splice SpliceProofs.
+From Coq Require Import ZArith.
+From Verif Require Import PyStrLit PyStrLitProofs PyLit PyLitProofs Splice DefaultLit DefaultLitProofs SpliceProofs.
 From VerifGen Require Import K10.
 Import ListNotations.
 Open Scope string_scope.
@@ -88,6 +89,70 @@ Theorem C16_site_literal_bytes : forall st, In st splice_sites -> s_kind st = KR
   lex_bytes (py_repr_bytes d ++ codes (s_after st) ++ rest) = Some (d, codes (s_after st) ++ rest).
 Proof. exact site_literal_bytes. Qed.
 Print Assumptions C16_site_literal_bytes.
+
+(* ------------------------------------------------------------------ round 3: literal VALUES *)
+(* every value of the literal model (str, bytes, int, bool, None, bound names, nested tuples
+   rendered element-wise) is rendered by repr() into text that evaluates back to exactly it *)
+Theorem C16_render_eval : forall p v rest,
+  oracle_ok p -> wf_lit v -> ends_token rest = true ->
+  eval_lit (render_lit p v ++ rest) = Some (v, rest).
+Proof. exact render_eval. Qed.
+Print Assumptions C16_render_eval.
+
+(* at every repr()/ascii() site the guards of the generator admit values of exactly the builtin
+   literal types only: type(X) in (...) tests, or isinstance() tests whose value is rendered through
+   the builtin base type's __repr__ (helpers.literal_repr, body checked by K10), so that a str/bytes/int
+   SUBCLASS with its own __repr__ cannot put text into the generated code (defect 12c7fd8) *)
+Theorem C16_sites_full : forallb site_ok_full splice_sites = true.
+Proof. exact sites_full. Qed.
+Print Assumptions C16_sites_full.
+
+(* only literal kinds arrive at a repr()/ascii() site of /repo, and every str/bytes/int/bool/None
+   value is read back exactly *)
+Theorem C16_site_value : forall st, In st splice_sites -> s_kind st = KRepr \/ s_kind st = KAscii ->
+  s_types st <> [] /\ forallb literal_kind (s_types st) = true /\
+  forall v p rest, atom_ty v <> None -> wf_lit v -> oracle_ok p ->
+    eval_lit (site_value_text (s_kind st) p v ++ codes (s_after st) ++ rest)
+    = Some (v, codes (s_after st) ++ rest).
+Proof. exact site_value. Qed.
+Print Assumptions C16_site_value.
+
+(* get_field_default_literal as read from /repo on this run is a safe branch table ... *)
+Theorem C16_default_branches_safe : branches_safe default_literal_branches = true.
+Proof. exact default_branches_safe. Qed.
+Print Assumptions C16_default_branches_safe.
+
+(* ... every safe table renders every default value (nested tuples, objects imported by reference,
+   IntFlag; floats under repr excluded by dwf) as a literal expression that denotes the value and
+   evaluates back to it ... *)
+Theorem C16_default_literal_general : forall t, branches_safe t = true -> forall v, dwf t v = true ->
+  exists l, shape t v = Some l /\ denotes l v /\
+    forall p rest, oracle_ok p -> ends_token rest = true ->
+      eval_lit (render_lit p l ++ rest) = Some (l, rest).
+Proof. exact shape_sound. Qed.
+Print Assumptions C16_default_literal_general.
+
+(* ... hence so does /repo's *)
+Theorem C16_default_literal : forall v, dwf default_literal_branches v = true ->
+  exists l, shape default_literal_branches v = Some l /\ denotes l v /\
+    forall p rest, oracle_ok p -> ends_token rest = true ->
+      eval_lit (render_lit p l ++ rest) = Some (l, rest).
+Proof. exact default_literal. Qed.
+Print Assumptions C16_default_literal.
+
+(* the pre-fix renderer (repr of a whole tuple, defect cb2c8da): not safe, and a tuple holding an
+   object has no literal rendering *)
+Theorem C16_repr_tuple_refuted :
+  branches_safe table_repr_tuple = false /\ shape table_repr_tuple (DTuple [DOther 1; DInt 1]) = None.
+Proof. exact repr_tuple_refuted. Qed.
+Print Assumptions C16_repr_tuple_refuted.
+
+Example C16_nonvacuous_default :
+  let v := DTuple [DStr (codes "it's"); DOther 3; DTuple [DIntFlag 5]; DTuple []; DNone] in
+  dwf default_literal_branches v = true /\
+  option_map (render_lit (fun _ => true)) (shape default_literal_branches v)
+  = Some (codes "(""it's"", v_3, (5,), (), None)").
+Proof. vm_compute. split; reflexivity. Qed.
 
 (* non-vacuity: the hypotheses are met by the adversarial strings, the table is not empty
    and contains every position class the property names *)
